@@ -107,9 +107,13 @@ func genMetric(r *mon.Rand) m3thrift.Metric {
 	return m
 }
 
+// normTags keeps the difference between an unset (nil) and a set-but-empty
+// optional list: whether an optional field is present is part of the value
+// ("with and without optional fields"); an empty list is normalised to one
+// canonical empty non-nil slice.
 func normTags(t []m3thrift.MetricTag) []m3thrift.MetricTag {
-	if len(t) == 0 {
-		return nil
+	if t != nil && len(t) == 0 {
+		return []m3thrift.MetricTag{}
 	}
 	return t
 }
@@ -154,6 +158,8 @@ func c16Case(c *mon.Ctx, r *mon.Rand, encs map[m3.Protocol]*encoder, calcs map[m
 			viol("decode-error", map[string]interface{}{"metric": fmt.Sprintf("%+v", m), "err": fmt.Sprint(derr), "trailing": rest})
 		} else if !metricEqual(normMetric(got), normMetric(m)) {
 			viol("roundtrip-differs", map[string]interface{}{"in": fmt.Sprintf("%+v", m), "out": fmt.Sprintf("%+v", got)})
+		} else if (got.Tags == nil) != (m.Tags == nil) {
+			viol("roundtrip-optional-presence-differs", map[string]interface{}{"why": fmt.Sprintf("optional tag list: set=%v before encoding, set=%v after decoding", m.Tags != nil, got.Tags != nil), "in": fmt.Sprintf("%+v", m)})
 		}
 		// maximal placeholders bound the size for any other values
 		mx := m
@@ -238,6 +244,16 @@ func c16Case(c *mon.Ctx, r *mon.Rand, encs map[m3.Protocol]*encoder, calcs map[m
 	nb2.Metrics = m2
 	if !batchEqual(nb1, nb2) {
 		viol("roundtrip-differs", map[string]interface{}{"batch_metrics": nb, "in": fmt.Sprintf("%.600s", fmt.Sprintf("%+v", b)), "out": fmt.Sprintf("%.600s", fmt.Sprintf("%+v", got))})
+		return
+	}
+	if (got.CommonTags == nil) != (b.CommonTags == nil) {
+		viol("roundtrip-optional-presence-differs", map[string]interface{}{"why": fmt.Sprintf("optional common tag list: set=%v before encoding, set=%v after decoding", b.CommonTags != nil, got.CommonTags != nil), "batch_metrics": nb})
+	}
+	for i := range got.Metrics {
+		if (got.Metrics[i].Tags == nil) != (b.Metrics[i].Tags == nil) {
+			viol("roundtrip-optional-presence-differs", map[string]interface{}{"why": fmt.Sprintf("metric %d: optional tag list set=%v before encoding, set=%v after decoding", i, b.Metrics[i].Tags != nil, got.Metrics[i].Tags != nil), "batch_metrics": nb})
+			break
+		}
 	}
 }
 
